@@ -12,23 +12,23 @@ HARNESS = r"""
 #else
 #define VF_CANARY() ((void) 0)
 #endif
-/* state with tables built by the REAL _rolling_hash2_init (executed, 256 iterations) */
+/* a state with ARBITRARY tables, history and hash: run / run_until / reset are proved for any table content
+ * (what the tables hold is the post-condition of _rolling_hash2_init, job rolling/init) */
 static struct isal_rh_state2 *vf_state(void)
 {
         struct isal_rh_state2 *st = malloc(sizeof(*st));
         __CPROVER_assume(st != 0 && g_w >= 1 && g_w <= 48);
-        /* the library's table is a (non-const) global initialised to the pinned values: proved by job
-         * rolling/table_pinned on the initial image; no library function writes it (frame clauses) */
-        for (unsigned t = 0; t < 256; t++)
-                rolling_hash2_table1[t] = vf_T1[t];
-        int r = _rolling_hash2_init(st, g_w);
-        __CPROVER_assume(r == 0);
+        st->w = g_w;
+        g_t1 = st->table1;
+        g_t2 = st->table2;
         return st;
 }
 void vf_h_init(void)
 {
         struct isal_rh_state2 *st = malloc(sizeof(*st));
         __CPROVER_assume(st != 0);
+        /* the library's table is a (non-const) global initialised to the pinned values: proved by job
+         * rolling/table_pinned on the initial image; no library function writes it (frame clauses) */
         for (unsigned t = 0; t < 256; t++)
                 rolling_hash2_table1[t] = vf_T1[t];
         uint32_t w;
@@ -41,6 +41,7 @@ void vf_h_reset(void)
         uint8_t *init = malloc(g_w); /* exactly w readable bytes */
         __CPROVER_assume(init != 0 && g_j < g_w);
         g_histbase = st->history; g_dw = &st->history[g_j];
+        g_R[0] = 0;
         _rolling_hash2_reset(st, init);
         VF_CANARY();
 }
@@ -48,11 +49,13 @@ void vf_h_run(void)
 {
         struct isal_rh_state2 *st = vf_state();
         g_buf = malloc(g_len);
-        __CPROVER_assume(g_buf != 0);
+        g_H = malloc(((size_t) g_len + 2) * sizeof(uint64_t));
+        __CPROVER_assume(g_buf != 0 && g_H != 0);
         for (unsigned j = 0; j < 48; j++)
                 g_hist0[j] = st->history[j]; /* snapshot of the (arbitrary) history on entry */
         __CPROVER_assume(g_j < g_w);
         g_histbase = st->history; g_dw = &st->history[g_j];
+        g_H[0] = st->hash;
         uint32_t mask, trigger;
         uint32_t *offset = malloc(sizeof(uint32_t));
         __CPROVER_assume(offset != 0);
@@ -69,9 +72,11 @@ void vf_h_run_until(void)
 {
         struct isal_rh_state2 *st = vf_state();
         g_buf = malloc(g_len);
-        __CPROVER_assume(g_buf != 0);
-        uint32_t idx; int max_idx; uint64_t h, mask, trigger;
-        _rolling_hash2_run_until_base(&idx, max_idx, st->table1, st->table2, g_buf, g_buf - g_w, h, mask, trigger);
+        g_H = malloc(((size_t) g_len + 2) * sizeof(uint64_t));
+        __CPROVER_assume(g_buf != 0 && g_H != 0);
+        uint32_t idx, base; int max_idx; uint64_t h, mask, trigger;
+        __CPROVER_assume(base <= g_len);
+        _rolling_hash2_run_until_base(&idx, max_idx, st->table1, st->table2, g_buf + base, g_buf + base - g_w, h, mask, trigger);
         VF_CANARY();
 }
 """
@@ -89,6 +94,12 @@ def annotate(workdir, repo=REPO):
         # ghost: loop-entry value of i (the contract loops start at *idx)
         overlay.Rule("ghost:i0", r"(?m)^(?P<x>        int i = \*idx;\n)(?P<at>)", "        int vf_i0 = i; /* ghost */\n"),
         overlay.Rule("loop:run_until", r"for \(; i < max_idx; i\+\+\)(?P<at>) \{", " VF_L_RUN_UNTIL ", count=2),
+        # ghost hash stream: one ghost assignment next to every real rolling update
+        overlay.Rule("ghost:run_until", r"for \(; i < max_idx; i\+\+\) \{(?P<at>)", " VF_G_RU(i);", count=2),
+        overlay.Rule("ghost:run", r"(?P<at>)[ \t]*hash = hash_fn\(state, hash, buffer\[i\], state->history\[i\]\);", "                VF_G_RUN(i);\n"),
+        overlay.nth_loop_rule("_rolling_hash2_reset", r"for \(i = 0; i < w; i\+\+\) \{(?P<at>)", "VF_G_RESET(i);", name="ghost:reset"),
+        # the piecewise scan loop of _rolling_hash2_run (fix 1bd20b9)
+        overlay.nth_loop_rule("_rolling_hash2_run", r"for \(;;\)(?P<at>) \{", "VF_L_RUN", name="loop:run"),
     ]
     out, fired = overlay.apply(text, rules)
     out += HARNESS
@@ -103,20 +114,25 @@ def jobs(workdir, repo=REPO):
     path, fired, sha, rel = annotate(workdir, repo)
     inc = [os.path.join(repo, "include"), os.path.join(repo, "rolling_hash"), os.path.join(VERIF, "contracts"), os.path.join(VERIF, "spec")]
     meta = {"file": rel, "sha256": sha, "aspect": "rolling", "fired": fired}
+    small = dict(includes=inc, defines=["SAFE_PARAM"], unwind=52, checks=["--bounds-check", "--pointer-check"])  # `buffer - w` is formed on purpose
+    lem = os.path.join(VERIF, "harness", "rolling_lemmas.c")
+    lmeta = {"file": "(lemma, code independent) harness/rolling_lemmas.c", "sha256": overlay.sha256_text(open(lem).read()), "aspect": "rolling-lemma"}
     js = [
         Job("rolling/table_pinned", [path], entry="vf_h_table", includes=inc, defines=["SAFE_PARAM"], unwind=260, timeout=300,
             meta=dict(meta, cost=1)),
-        Job("rolling/run_until_base", [path], entry="vf_h_run_until", enforce="_rolling_hash2_run_until_base",
-            loop_contracts=True, includes=inc, defines=["SAFE_PARAM"], unwind=260, timeout=3000, solvers=["minisat"],
-            checks=["--bounds-check", "--pointer-check"],  # `buffer - w` is formed on purpose (see DESIGN: observation)
-            expect_classes=["loop_invariant_step", "postcondition"], meta=dict(meta, cost=500), mem_gb=40),
+        Job("rolling/init", [path], entry="vf_h_init", enforce="_rolling_hash2_init", timeout=900, includes=inc, defines=["SAFE_PARAM"],
+            unwind=260, checks=["--bounds-check", "--pointer-check"], expect_classes=["postcondition"], meta=dict(meta, cost=30)),
+        Job("rolling/run_until_base", [path], entry="vf_h_run_until", enforce="_rolling_hash2_run_until_base", loop_contracts=True,
+            timeout=1500, solvers=["minisat", "cadical"], expect_classes=["loop_invariant_step", "postcondition"], meta=dict(meta, cost=100),
+            mem_gb=16, **small),
+        Job("rolling/reset", [path], entry="vf_h_reset", enforce="_rolling_hash2_reset", replace=["memcpy"], timeout=1500,
+            solvers=["minisat", "cadical"], mem_gb=16, expect_classes=["postcondition"], meta=dict(meta, cost=100), **small),
+        Job("rolling/run", [path], entry="vf_h_run", enforce="_rolling_hash2_run", replace=["_rolling_hash2_run_until", "memcpy", "memmove"],
+            loop_contracts=True, timeout=1500, solvers=["minisat", "cadical"], mem_gb=16, object_bits=12,
+            expect_classes=["postcondition", "precondition", "loop_invariant_step"], meta=dict(meta, cost=300), **small),
+        Job("rolling/lemma_reset", [lem], entry="lemma_reset", unwind=50, timeout=900, solvers=["minisat", "cadical", "z3"], checks=[],
+            expect_classes=["assertion"], meta=dict(lmeta, cost=20)),
+        Job("rolling/lemma_step", [lem], entry="lemma_step", unwind=50, timeout=900, solvers=["minisat", "cadical", "z3"], checks=[],
+            expect_classes=["assertion"], meta=dict(lmeta, cost=20)),
     ]
-    common = dict(includes=inc, defines=["SAFE_PARAM"], unwind=260, checks=["--bounds-check", "--pointer-check"])
-    js.append(Job("rolling/init", [path], entry="vf_h_init", enforce="_rolling_hash2_init", timeout=900,
-                  expect_classes=["postcondition"], meta=dict(meta, cost=30), **common))
-    js.append(Job("rolling/reset", [path], entry="vf_h_reset", enforce="_rolling_hash2_reset", replace=["memcpy"], timeout=1800, solvers=["minisat"], mem_gb=40,
-                  expect_classes=["postcondition"], meta=dict(meta, cost=100), **common))
-    js.append(Job("rolling/run", [path], entry="vf_h_run", enforce="_rolling_hash2_run", replace=["_rolling_hash2_run_until", "memcpy", "memmove"],
-                  timeout=3600, solvers=["minisat"], mem_gb=40,
-                  expect_classes=["postcondition", "precondition"], meta=dict(meta, cost=1000), **common))
     return js
